@@ -137,6 +137,17 @@ def run_proc(cmd, cdir, env=None, cpu=CPU_LIMIT, stdin=None, stdin_closed=False,
     return r
 
 
+def write_sparse(path, data, block=4096):
+    """Write `data` leaving holes where whole blocks are zero (what cp --sparse / rsync -S / a download into a pre-sized file produce)."""
+    with open(path, "wb") as f:
+        for o in range(0, len(data), block):
+            b = data[o:o + block]
+            if b.count(0) != len(b):
+                f.seek(o)
+                f.write(b)
+        f.truncate(len(data))
+
+
 def parse_log(path):
     evs = []
     try:
